@@ -73,22 +73,15 @@ Definition str_insert_bytes (cap : nat) (s : str) (idx : nat) (b : str) : res (s
   else if existsb bad_byte b then Val (inr InvalidCharacter)
   else Val (inl (firstn idx s ++ b ++ skipn idx s)).                     (* insert_bytes_unchecked *)
 
-(* remove_range: `self.data_mut()[new_len].write(0)` is an unguarded slice index: it is out
-   of bounds exactly when new_len = cap, i.e. len = 0 on a full string. *)
-Definition str_remove_range (cap : nat) (s : str) (idx len : nat) : res (str * bool) :=
-  if Nat.ltb (length s) (idx + len) then Val (s, false)
-  else
-    let new_len := length s - len in
-    if Nat.leb cap new_len then Panic
-    else Val (firstn idx s ++ skipn (idx + len) s, true).
+(* remove_range: the terminator write is guarded by `new_len < data().len()` (fix 8cf1846),
+   so the capacity plays no role any more *)
+Definition str_remove_range (s : str) (idx len : nat) : str * bool :=
+  if Nat.ltb (length s) (idx + len) then (s, false)
+  else (firstn idx s ++ skipn (idx + len) s, true).
 
-Definition str_remove (cap : nat) (s : str) (idx : nat) : res (str * option N) :=
-  if Nat.leb (length s) idx then Val (s, None)
-  else
-    match str_remove_range cap s idx 1 with
-    | Panic => Panic
-    | Val (s', _) => Val (s', Some (nth idx s 0%N))
-    end.
+Definition str_remove (s : str) (idx : nat) : str * option N :=
+  if Nat.leb (length s) idx then (s, None)
+  else (fst (str_remove_range s idx 1), Some (nth idx s 0%N)).
 
 (* the inner comparison loop of find/rfind at start position i *)
 Fixpoint starts_with (b t : str) : bool :=
@@ -118,23 +111,19 @@ Definition str_rfind (s b : str) : option nat :=
   if Nat.ltb (length s) (length b) then None
   else rfind_loop s b (length s - length b + 1).
 
-Definition str_strip_prefix (cap : nat) (s b : str) : res (str * bool) :=
+Definition str_strip_prefix (s b : str) : str * bool :=
   match str_find s b with
-  | Some O =>
-    match str_remove_range cap s 0 (length b) with
-    | Panic => Panic
-    | Val (s', _) => Val (s', true)
-    end
-  | _ => Val (s, false)
+  | Some O => (fst (str_remove_range s 0 (length b)), true)
+  | _ => (s, false)
   end.
 
-Definition str_strip_suffix (cap : nat) (s b : str) : res (str * bool) :=
-  if Nat.ltb (length s) (length b) then Val (s, false)
+Definition str_strip_suffix (s b : str) : str * bool :=
+  if Nat.ltb (length s) (length b) then (s, false)
   else
     let pos := length s - length b in
     match str_rfind s b with
-    | Some v => if negb (Nat.eqb v pos) then Val (s, false) else str_remove_range cap s pos (length b)
-    | None => Val (s, false)
+    | Some v => if negb (Nat.eqb v pos) then (s, false) else str_remove_range s pos (length b)
+    | None => (s, false)
     end.
 
 (* truncate: the terminator write is guarded by `new_len < capacity` *)
@@ -142,19 +131,13 @@ Definition str_truncate (s : str) (new_len : nat) : str :=
   if Nat.ltb (length s) new_len then s else firstn new_len s.
 
 (* retain: `for idx in (0..len).rev() { if f(data[idx]) { self.remove(idx); } }`
-   -- the bytes for which f is TRUE are removed (the doc comment says the opposite) *)
-Fixpoint retain_loop (cap : nat) (f : N -> bool) (k : nat) (s : str) : res str :=
+   -- the bytes for which f is TRUE are removed (the doc comment says the opposite; C16) *)
+Fixpoint retain_loop (f : N -> bool) (k : nat) (s : str) : str :=
   match k with
-  | O => Val s
-  | S idx =>
-    if f (nth idx s 0%N) then
-      match str_remove cap s idx with
-      | Panic => Panic
-      | Val (s', _) => retain_loop cap f idx s'
-      end
-    else retain_loop cap f idx s
+  | O => s
+  | S idx => if f (nth idx s 0%N) then retain_loop f idx (fst (str_remove s idx)) else retain_loop f idx s
   end.
-Definition str_retain (cap : nat) (f : N -> bool) (s : str) : res str := retain_loop cap f (length s) s.
+Definition str_retain (f : N -> bool) (s : str) : str := retain_loop f (length s) s.
 
 (* ---------------------------------------------------------------------------------- *)
 (* trait SemanticString<cap>; a semantic type = capacity + the two callables of the macro *)
@@ -168,18 +151,15 @@ Definition is_invalid_content (T : sty) (s : str) : bool := has_invalid_chars T 
 (* result of a `&mut self` method: the value of self afterwards and the returned Result *)
 Definition mres (A : Type) := res (str * (A + semerr)).
 
-(* insert_bytes: every error of String::insert_bytes (capacity AND invalid character) is
-   reported `with SemanticStringError::ExceedsMaximumLength`; then content check, roll back *)
+(* insert_bytes: InvalidCharacter => InvalidContent, any other String error =>
+   ExceedsMaximumLength (fix 47ad8e2); then content check, roll back *)
 Definition sem_insert_bytes (T : sty) (s : str) (idx : nat) (b : str) : mres unit :=
   match str_insert_bytes (cap T) s idx b with
   | Panic => Panic
+  | Val (inr InvalidCharacter) => Val (s, inr InvalidContent)
   | Val (inr _) => Val (s, inr ExceedsMaximumLength)
   | Val (inl s1) =>
-    if is_invalid_content T s1 then
-      match str_remove_range (cap T) s1 idx (length b) with
-      | Panic => Panic
-      | Val (s2, _) => Val (s2, inr InvalidContent)
-      end
+    if is_invalid_content T s1 then Val (fst (str_remove_range s1 idx (length b)), inr InvalidContent)
     else Val (s1, inl tt)
   end.
 Definition sem_insert (T : sty) (s : str) (idx : nat) (c : N) := sem_insert_bytes T s idx [c].
@@ -196,58 +176,36 @@ Definition sem_new (T : sty) (b : str) : res (str + semerr) :=
 
 (* remove: on a copy; check; assign *)
 Definition sem_remove (T : sty) (s : str) (idx : nat) : mres (option N) :=
-  match str_remove (cap T) s idx with
-  | Panic => Panic
-  | Val (temp, v) => if is_invalid_content T temp then Val (s, inr InvalidContent) else Val (temp, inl v)
-  end.
+  let (temp, v) := str_remove s idx in
+  if is_invalid_content T temp then Val (s, inr InvalidContent) else Val (temp, inl v).
 Definition sem_pop (T : sty) (s : str) : mres (option N) :=
   if Nat.eqb (length s) 0 then Val (s, inl None) else sem_remove T s (length s - 1).
 
 (* remove_range: on a copy; check; the same call again on self *)
 Definition sem_remove_range (T : sty) (s : str) (idx len : nat) : mres unit :=
-  match str_remove_range (cap T) s idx len with
-  | Panic => Panic
-  | Val (temp, _) =>
-    if is_invalid_content T temp then Val (s, inr InvalidContent)
-    else match str_remove_range (cap T) s idx len with
-         | Panic => Panic
-         | Val (s', _) => Val (s', inl tt)
-         end
-  end.
+  let temp := fst (str_remove_range s idx len) in
+  if is_invalid_content T temp then Val (s, inr InvalidContent)
+  else Val (fst (str_remove_range s idx len), inl tt).
 
 Definition sem_retain (T : sty) (s : str) (f : N -> bool) : mres unit :=
-  match str_retain (cap T) f s with
-  | Panic => Panic
-  | Val temp => if is_invalid_content T temp then Val (s, inr InvalidContent) else Val (temp, inl tt)
-  end.
+  let temp := str_retain f s in
+  if is_invalid_content T temp then Val (s, inr InvalidContent) else Val (temp, inl tt).
 
-(* strip_prefix / strip_suffix: on the error path the argument is copied with
-   insert_bytes_unchecked into a `StaticString::<123>` (for the log message): the slice
-   index `data_mut()[i]` is out of bounds for i = 123, i.e. when more than 123 bytes. *)
-Definition LOG_STRING_CAP : nat := 123.
+(* strip_prefix / strip_suffix: on a copy; Ok(false) when absent; check; again on self
+   (the log message uses as_escaped_string since fix c6cc798: no buffer, no panic) *)
 Definition sem_strip_prefix (T : sty) (s : str) (b : str) : mres bool :=
-  match str_strip_prefix (cap T) s b with
-  | Panic => Panic
-  | Val (_, false) => Val (s, inl false)
-  | Val (temp, true) =>
-    if is_invalid_content T temp then
-      (if Nat.ltb LOG_STRING_CAP (length b) then Panic else Val (s, inr InvalidContent))
-    else match str_strip_prefix (cap T) s b with
-         | Panic => Panic
-         | Val (s', _) => Val (s', inl true)
-         end
+  match str_strip_prefix s b with
+  | (_, false) => Val (s, inl false)
+  | (temp, true) =>
+    if is_invalid_content T temp then Val (s, inr InvalidContent)
+    else Val (fst (str_strip_prefix s b), inl true)
   end.
 Definition sem_strip_suffix (T : sty) (s : str) (b : str) : mres bool :=
-  match str_strip_suffix (cap T) s b with
-  | Panic => Panic
-  | Val (_, false) => Val (s, inl false)
-  | Val (temp, true) =>
-    if is_invalid_content T temp then
-      (if Nat.ltb LOG_STRING_CAP (length b) then Panic else Val (s, inr InvalidContent))
-    else match str_strip_suffix (cap T) s b with
-         | Panic => Panic
-         | Val (s', _) => Val (s', inl true)
-         end
+  match str_strip_suffix s b with
+  | (_, false) => Val (s, inl false)
+  | (temp, true) =>
+    if is_invalid_content T temp then Val (s, inr InvalidContent)
+    else Val (fst (str_strip_suffix s b), inl true)
   end.
 
 Definition sem_truncate (T : sty) (s : str) (new_len : nat) : mres unit :=
@@ -380,15 +338,19 @@ Definition path_normalize (s : str) : str :=
 Definition path_entries (s : str) : list str := filter nonempty (split_sep s).
 Definition path_is_absolute (s : str) : bool := match s with c :: _ => N.eqb c SEP | [] => false end.
 
-(* Path::add_path_entry: push(SEP)? ; push_bytes(entry)?  -- the separator stays when the
-   second step fails *)
+(* Path::add_path_entry (fix a263455): on a copy: push(SEP)? ; push_bytes(entry)? ; *self = copy *)
 Definition path_add_path_entry (s entry : str) : mres unit :=
   let step1 : mres unit :=
     if nonempty s && negb (N.eqb (last s 0%N) SEP) then sem_push PathT s SEP else Val (s, inl tt) in
   match step1 with
   | Panic => Panic
-  | Val (s1, inr e) => Val (s1, inr e)
-  | Val (s1, inl _) => sem_push_bytes PathT s1 entry
+  | Val (_, inr e) => Val (s, inr e)
+  | Val (s1, inl _) =>
+    match sem_push_bytes PathT s1 entry with
+    | Panic => Panic
+    | Val (_, inr e) => Val (s, inr e)
+    | Val (s2, inl _) => Val (s2, inl tt)
+    end
   end.
 
 (* rsplitn(2, sep): (everything before the last separator, if there is one; the piece behind it) *)
@@ -410,13 +372,12 @@ Definition fp_path (s : str) : str :=
   | None => []
   end.
 
-(* FilePath::from_path_and_file; dbg = the build has debug assertions:
-   from_path_and_file_unchecked starts with debug_assert!(path.len + file.len + 1 < PATH_LENGTH) *)
-Definition fp_from_path_and_file (dbg : bool) (path file : str) : res (str + semerr) :=
+(* FilePath::from_path_and_file (the debug_assert of from_path_and_file_unchecked repeats the
+   length check since fix e2099f0 and can never fire) *)
+Definition fp_from_path_and_file (path file : str) : res (str + semerr) :=
   let need_sep := nonempty path && negb (N.eqb (last path 0%N) SEP) in
   let required_len := length path + length file + (if need_sep then 1 else 0) in
   if Nat.ltb PATH_LENGTH required_len then Val (inr ExceedsMaximumLength)
-  else if dbg && negb (Nat.ltb (length path + length file + 1) PATH_LENGTH) then Panic
   else Val (inl (path ++ (if need_sep then [SEP] else []) ++ file)).
 
 (* ---------------------------------------------------------------------------------- *)
@@ -438,17 +399,15 @@ Definition nc_path_for (c : ncfg) (name : str) : res str :=
   | _ => Panic
   end.
 
-(* extract_name_from_file: Err(InvalidContent) of a strip is a fatal_panic *)
+(* extract_name_from_file (fix 19ab506): None unless both strips return Ok(true) *)
 Definition nc_extract_name_from_file (c : ncfg) (file : str) : res (option str) :=
   match sem_strip_prefix FileNameT file (prefix c) with
-  | Val (_, inl false) => Val None
   | Val (f1, inl true) =>
     match sem_strip_suffix FileNameT f1 (suffix c) with
-    | Val (_, inl false) => Val None
     | Val (f2, inl true) => Val (Some f2)
-    | _ => Panic
+    | _ => Val None
     end
-  | _ => Panic
+  | _ => Val None
   end.
 
 (* extract_name_from_path: `*self.get_path_hint() != value.path()` is Path's PartialEq, i.e.
@@ -615,40 +574,15 @@ Definition gspec_apply (c : nat) (R : str -> bool) (s : str) (o : sop) : res (st
   end.
 Definition spec_apply (t : ty) : str -> sop -> res (str * sobs) := gspec_apply (cap_of t) (rules_of t).
 
-(* The classes of (value, operation) on which the code is known to deviate from the spec
-   (each one replayed on the real code by the harness; see props/C19.v):
-   - err_kind_class (F15): an insertion that fits but contains a NUL or a byte >= 128 is
-     reported as ExceedsMaximumLength instead of InvalidContent;
-   - full_zero_class: a zero-length removal on a full string panics (remove_range(i, 0),
-     strip_prefix(b""), strip_suffix(b"") when len = capacity);
-   - log_buffer_class: strip_prefix/strip_suffix with more than 123 bytes whose removal is
-     rejected panics instead of returning InvalidContent. *)
+(* bytes an insertion adds, and where (used to state when a mutator panics) *)
 Definition inserted_bytes (s : str) (o : sop) : option (nat * str) :=
   match o with
   | OpPush x => Some (length s, [x]) | OpPushBytes b => Some (length s, b)
   | OpInsert i x => Some (i, [x]) | OpInsertBytes i b => Some (i, b)
   | _ => None
   end.
-Definition err_kind_class (c : nat) (s : str) (o : sop) : bool :=
-  match inserted_bytes s o with
-  | Some (i, b) => Nat.leb i (length s) && Nat.leb (length s + length b) c && existsb bad_byte b
-  | None => false
-  end.
-Definition full_zero_class (c : nat) (s : str) (o : sop) : bool :=
-  Nat.eqb (length s) c &&
-  match o with
-  | OpRemoveRange i n => Nat.eqb n 0 && Nat.leb i (length s)
-  | OpStripPrefix b | OpStripSuffix b => Nat.eqb (length b) 0
-  | _ => false
-  end.
-Definition log_buffer_class (R : str -> bool) (s : str) (o : sop) : bool :=
-  match o with
-  | OpStripPrefix b => Nat.ltb LOG_STRING_CAP (length b) && is_prefix b s && negb (R (skipn (length b) s))
-  | OpStripSuffix b => Nat.ltb LOG_STRING_CAP (length b) && is_suffix b s && negb (R (firstn (length s - length b) s))
-  | _ => false
-  end.
-Definition known_class (c : nat) (R : str -> bool) (s : str) (o : sop) : bool :=
-  err_kind_class c s o || full_zero_class c s o || log_buffer_class R s o.
+(* the relation between two prefixes that breaks isolation (F4, known finding) *)
+Definition prefix_related (p1 p2 : str) : bool := starts_with p1 p2 || starts_with p2 p1.
 
 (* FilePath::from_path_and_file: the concatenation whenever it fits *)
 Definition spec_from_path_and_file (path file : str) : res (str + semerr) :=
